@@ -108,3 +108,16 @@ func init() {
 		Runs: []Run{{Pkg: hp + "c04", Variant: "real"}},
 	}
 }
+
+func init() {
+	specs["C05"] = &Spec{
+		Title: "Files are byte-exact age v1 and existing files keep decrypting",
+		Level: "exploration",
+		LevelText: "Differential check against an independent implementation of the age v1 specification: with crypto/rand.Reader replaced by a logging deterministic tape, every output of the real Encrypt over the enumerated (recipient list, size at the 48-byte and 64 KiB seams, armor, tape seed) space is rebuilt byte for byte by the reference encoder from the random values recovered from the tape by value (ssh-rsa bodies are opened instead) and decrypted by the reference decoder; every reference-encoded file over the same space, every file of the frozen corpus and every CCTV vector is decrypted by the real Decrypt with the recorded result.",
+		LevelNote: "trusts the reference implementation (itself validated against all CCTV vectors in the same run, counted as traces) and Go's crypto primitives; the corpus was produced by the pinned tree and cross-checked by the reference decoder before being frozen",
+		Technique: "bounded-exhaustive differential enumeration against an independent reference encoder/decoder under a deterministic CSPRNG tape; frozen corpus replay",
+		Rule: "enumerate (recipient list, plaintext length, armor, tape seed); oracle = byte equality with the reference encoder given the tape values, reference decodability, and recorded plaintext for corpus / CCTV / reference-produced files. distinct_nontrivial counts distinct files compared or decrypted.",
+		Assumptions: commonAssume,
+		Runs: []Run{{Pkg: hp + "c05", Variant: "real"}},
+	}
+}
